@@ -244,7 +244,9 @@ VRefTick(m) ==
       m1 == VAdvPlays(ms, ms.plays, <<>>)
       dq == VDequeue(m1)
       m2 == VCustom(dq.m, dq.ce)
-      m3 == VIdleFire(m2, m2.idl, <<>>)
+      m3f == VIdleFire(m2, m2.idl, <<>>)
+      \* several entries (same idle time) firing on one tick: their order is unspecified - not judged from here on
+      m3 == IF Len(m2.idl) - Len(m3f.idl) >= 2 THEN [m3f EXCEPT !.sync = FALSE] ELSE m3f
   IN VHfdTick(m3, 1)
 
 \* ----- observation -------------------------------------------------------------------------
